@@ -81,21 +81,21 @@ TrRecv == IsEv("c.recv") /\ ReaderRecv /\ Adv
 
 TrDispatch ==
     /\ IsEv("c.dispatch")
-    /\ ~codecClosed /\ ~shutdown
     /\ rdq # <<>> /\ Head(rdq).seq = E.seq
+    /\ (~codecClosed \/ Head(rdq).early) /\ ~shutdown       \* (the closed flag is tested ahead of the mutex, see ReaderDispatch)
     /\ (E.b % 2 = 1) <=> Head(rdq).err
     /\ LET hit == {c \in pending : seqof[c] = E.seq} IN
           IF E.c = 0 THEN hit = {} ELSE hit = {E.c}
-    /\ \E d2 \in BOOLEAN : ReaderDispatch(E.s = 1, d2) /\ Cardinality(pending') = E.b \div 2
+    /\ \E d2 \in BOOLEAN : ReaderDispatch(E.s = 1, d2, FALSE) /\ Cardinality(pending') = E.b \div 2
     /\ Adv
 
 TrDropShutdown ==
-    /\ IsEv("c.dropshutdown") /\ shutdown /\ ~codecClosed
-    /\ rdq # <<>> /\ Head(rdq).seq = E.seq
-    /\ ReaderDispatch(FALSE, FALSE)
+    /\ IsEv("c.dropshutdown") /\ shutdown
+    /\ rdq # <<>> /\ Head(rdq).seq = E.seq /\ (~codecClosed \/ Head(rdq).early)
+    /\ ReaderDispatch(FALSE, FALSE, FALSE)
     /\ Adv
 
-TrBadFrame == IsEv("c.badframe") /\ codecClosed /\ ReaderDispatch(FALSE, FALSE) /\ Adv
+TrBadFrame == IsEv("c.badframe") /\ codecClosed /\ ReaderDispatch(FALSE, FALSE, TRUE) /\ Adv
 
 TrFinish ==
     /\ (IsEv("c.finish") \/ IsEv("c.errdone") \/ IsEv("c.ackdone"))
